@@ -9,8 +9,8 @@ META = {
             "logs the series, DB.truncate = gc + segment-numbered deleted map + 'lower two thirds' checkpoint, restart = loadWAL with "
             "duplicate refs), with an appender that may stay open across a truncation. TLC checks on every reachable state that "
             "every sample accepted by a committed appender at or after the truncation time is still in checkpoint+segments after a "
-            "series entry for its ref, that every entry left follows its series entry, and the out-of-order rule (all up to three "
-            "recorded known findings). TLC-generated histories (one per coverage class of the exhaustive small model and of two "
+            "series entry for its ref, that every entry left follows its series entry, and the out-of-order rule (up to one "
+            "recorded open finding). TLC-generated histories (one per coverage class of the exhaustive small model and of two "
             "scenario skeletons, plus seeded random walks with a window and histograms) are driven into a real agent.DB; append "
             "verdicts are compared with the prediction, the real WAL is decoded and TLC evaluates AcceptedKept and RefClosed on "
             "the real entries against the samples the real appenders accepted; Querier/ChunkQuerier/ExemplarQuerier must fail.",
@@ -83,8 +83,8 @@ def run(ctx):
     ctx.assumptions += [
         "bounded model (see META.note); predicted WAL entries / refs are drift-only, verdicts come from append results and from "
         "AcceptedKept / RefClosed evaluated on the real entries",
-        "known findings KF-C48-1..3 are excused only in the classes the model tags (exemplar orphans, appender open across a GC, "
-        "duplicate refs)",
+        "the open finding KF-C48-2 is excused only in the class the model tags (appender open across a GC); KF-C48-1/3 are "
+        "repaired and modelled as repaired",
     ]
     return ctx.finish(rule="one behaviour per coverage class of the exhaustive runs and skeletons + simulated walks, each driven into a "
                            "real agent.DB", exhaustive=False)
